@@ -36,11 +36,23 @@ type stats struct {
 	PkgVarYields int    `json:"pkg_var_yields"`
 	ClockVars    int    `json:"clock_vars_reinit"`
 	DenseYields  int    `json:"dense_yields"`
+	SplitRMW     int    `json:"rmw_splits"`
+	Timers       int    `json:"timer_sites"`
+	MapAccesses  int    `json:"map_access_probes"`
 	reinitFunc   string
 	pkgName      string
 }
 
+var zeroVars bool
+
+// unsafeObjs: names of package-level variables / struct fields holding an object unsafe for concurrent use (R14).
+var unsafeObjs = map[string]bool{}
+
+// mapFields: names of struct fields of map type in the package being rewritten (R12).
+var mapFields = map[string]bool{}
+
 type rewriter struct {
+	tmpN       int
 	noDense    int
 	fset       *token.FileSet
 	rel        string
@@ -49,8 +61,8 @@ type rewriter struct {
 	st         stats
 	tmp        int
 	needRT     bool
-	pkgVars    map[string]bool          // names of package-level variables of this package
-	pkgSpecs   map[*ast.ValueSpec]bool  // their declarations in this file
+	pkgVars    map[string]bool         // names of package-level variables of this package
+	pkgSpecs   map[*ast.ValueSpec]bool // their declarations in this file
 	viaPkgVar  bool
 }
 
@@ -61,6 +73,7 @@ var atomicMethods = map[string]bool{"Load": true, "Store": true, "Swap": true, "
 func main() {
 	root := flag.String("root", "", "scratch repository root")
 	module := flag.String("module", "github.com/acquirecloud/golibs", "module path")
+	flag.BoolVar(&zeroVars, "zerovars", false, "also reset package-level variables declared without a value (process-wide lazily initialised state of a dependency) in ZverifReinitClockVars")
 	flag.Parse()
 	if *root == "" || flag.NArg() == 0 {
 		fmt.Fprintln(os.Stderr, "usage: instrument -root DIR pkgdir...")
@@ -77,6 +90,8 @@ func main() {
 		// R7: names of the package-level variables (shared mutable state that is not
 		// behind a recognisable synchronisation call)
 		pkgVars := map[string]bool{}
+		mapFields = map[string]bool{}
+		unsafeObjs = map[string]bool{}
 		for _, e := range ents {
 			n := e.Name()
 			if e.IsDir() || !strings.HasSuffix(n, ".go") || strings.HasSuffix(n, "_test.go") || strings.HasPrefix(n, "zverif_") {
@@ -98,6 +113,85 @@ func main() {
 					}
 				}
 			}
+			// R14: package-level variables and struct fields that are given an object which its
+			// documentation declares unsafe for concurrent use (math/rand.Rand, bufio readers and
+			// writers, ulid.MonotonicEntropy)
+			unsafeCtors := map[string]bool{}
+			for _, im := range f.Imports {
+				ip, _ := strconv.Unquote(im.Path.Value)
+				name := ""
+				if im.Name != nil {
+					name = im.Name.Name
+				}
+				switch ip {
+				case "math/rand", "math/rand/v2":
+					if name == "" {
+						name = "rand"
+					}
+					unsafeCtors[name+".New"] = true
+				case "bufio":
+					if name == "" {
+						name = "bufio"
+					}
+					unsafeCtors[name+".NewReader"] = true
+					unsafeCtors[name+".NewWriter"] = true
+				case "github.com/oklog/ulid/v2", "github.com/oklog/ulid":
+					if name == "" {
+						name = "ulid"
+					}
+					unsafeCtors[name+".Monotonic"] = true
+				}
+			}
+			isCtor := func(e ast.Expr) bool {
+				c, ok := e.(*ast.CallExpr)
+				if !ok {
+					return false
+				}
+				se, ok := c.Fun.(*ast.SelectorExpr)
+				if !ok {
+					return false
+				}
+				id, ok := se.X.(*ast.Ident)
+				return ok && unsafeCtors[id.Name+"."+se.Sel.Name]
+			}
+			if len(unsafeCtors) > 0 {
+				ast.Inspect(f, func(n ast.Node) bool {
+					switch x := n.(type) {
+					case *ast.ValueSpec:
+						for i, v := range x.Values {
+							if i < len(x.Names) && isCtor(v) {
+								unsafeObjs[x.Names[i].Name] = true
+							}
+						}
+					case *ast.AssignStmt:
+						for i, v := range x.Rhs {
+							if i >= len(x.Lhs) || !isCtor(v) {
+								continue
+							}
+							switch l := x.Lhs[i].(type) {
+							case *ast.SelectorExpr:
+								unsafeObjs[l.Sel.Name] = true
+							case *ast.Ident:
+								unsafeObjs[l.Name] = true
+							}
+						}
+					}
+					return true
+				})
+			}
+			// R12: names of struct fields of map type
+			ast.Inspect(f, func(n ast.Node) bool {
+				if st, ok := n.(*ast.StructType); ok && st.Fields != nil {
+					for _, fl := range st.Fields.List {
+						if _, isMap := fl.Type.(*ast.MapType); isMap {
+							for _, id := range fl.Names {
+								mapFields[id.Name] = true
+							}
+						}
+					}
+				}
+				return true
+			})
 		}
 		// R8: package-level variables whose initialiser reads the clock (directly or
 		// through another such variable) get re-initialised inside the simulation, so
@@ -130,6 +224,9 @@ func main() {
 		var b strings.Builder
 		fmt.Fprintf(&b, "package %s\n\n// ZverifReinitClockVars re-evaluates the package-level variables whose initialiser reads the clock.\nfunc ZverifReinitClockVars() {\n", pkgName)
 		if len(reinit) > 0 {
+			if maxRound < 0 {
+				maxRound = 0
+			}
 			fmt.Fprintf(&b, "\tfor round := 0; round <= %d; round++ {\n", maxRound)
 			for _, fn := range reinit {
 				fmt.Fprintf(&b, "\t\t%s(round)\n", fn)
@@ -390,6 +487,22 @@ func processFile(path, rel, module string, pkgVars map[string]bool, clockRound m
 		})
 	}
 
+	// R13: time.NewTimer / time.Timer go through the runtime, which gives the timer
+	// channel either the semantics of Go >= 1.23 or the buffered one-tick channel of
+	// earlier releases (what a main module with an older go line still gets)
+	if tn := timeImportName(f); tn != "" {
+		ast.Inspect(f, func(n ast.Node) bool {
+			if se, ok := n.(*ast.SelectorExpr); ok {
+				if id, ok := se.X.(*ast.Ident); ok && id.Name == tn && id.Obj == nil && (se.Sel.Name == "NewTimer" || se.Sel.Name == "Timer") {
+					se.X = ast.NewIdent(rtName)
+					rw.st.Timers++
+					rw.needRT = true
+				}
+			}
+			return true
+		})
+	}
+
 	for _, d := range f.Decls {
 		switch x := d.(type) {
 		case *ast.FuncDecl:
@@ -465,6 +578,31 @@ func processFile(path, rel, module string, pkgVars map[string]bool, clockRound m
 	var buf bytes.Buffer
 	if err := format.Node(&buf, fset, f); err != nil {
 		return rw.st, fmt.Errorf("%s: %w", path, err)
+	}
+	if zeroVars {
+		// process-wide state that the dependency initialises lazily (a sync.Once and what it
+		// guards): back to the zero value before every run, so that every run - not only
+		// the first one of a process - goes through the initialisation and its scheduling points
+		for _, d := range f.Decls {
+			gd, ok := d.(*ast.GenDecl)
+			if !ok || gd.Tok != token.VAR {
+				continue
+			}
+			for _, sp := range gd.Specs {
+				vs := sp.(*ast.ValueSpec)
+				if vs.Type == nil || len(vs.Values) != 0 {
+					continue
+				}
+				var tb bytes.Buffer
+				format.Node(&tb, fset, vs.Type)
+				for _, id := range vs.Names {
+					if id.Name != "_" {
+						reinitByRound[0] = append(reinitByRound[0], fmt.Sprintf("{\n\t\t\tvar z %s\n\t\t\t%s = z\n\t\t}", tb.String(), id.Name))
+						rw.st.ClockVars++
+					}
+				}
+			}
+		}
 	}
 	if len(reinitByRound) > 0 {
 		base := strings.TrimSuffix(filepath.Base(path), ".go")
@@ -585,7 +723,32 @@ func (rw *rewriter) hasSyncOp(n ast.Node) bool {
 func (rw *rewriter) stmts(list []ast.Stmt) []ast.Stmt {
 	var out []ast.Stmt
 	for _, s := range list {
+		if b := rw.splitRMW(s); b != nil {
+			// assembled by hand (the new nodes have no positions of their own): the usual
+			// point before the statement, the load, the dense point, the store
+			var r []ast.Stmt
+			if rw.hasSyncOp(s) {
+				r = append(r, rw.yield(s))
+			} else {
+				rw.st.DenseYields++
+				r = append(r, &ast.ExprStmt{X: rtCall("YieldDense", rw.point(s))})
+			}
+			load, store := b.List[0], b.List[2]
+			inner := append([]ast.Stmt{}, rw.mapAccesses(load)...)
+			inner = append(inner, load, &ast.ExprStmt{X: rtCall("YieldDense", rw.point(s))})
+			inner = append(inner, rw.mapAccesses(store)...)
+			inner = append(inner, store)
+			out = append(out, append(r, &ast.BlockStmt{List: inner})...)
+			continue
+		}
+		acc := rw.mapAccesses(s)
 		r := rw.stmt(s)
+		if len(acc) > 0 && len(r) > 0 {
+			// R12: right before the statement, with no scheduling point in between
+			rr := append([]ast.Stmt{}, r[:len(r)-1]...)
+			rr = append(rr, acc...)
+			r = append(rr, r[len(r)-1])
+		}
 		// R9: every other statement gets a "dense" scheduling point, which is a no-op
 		// unless the run asks for dense scheduling: then unsynchronised accesses to
 		// shared state (a read before the lock is taken, state that is transiently
@@ -597,6 +760,286 @@ func (rw *rewriter) stmts(list []ast.Stmt) []ast.Stmt {
 			r = append([]ast.Stmt{&ast.ExprStmt{X: rtCall("YieldDense", rw.point(s))}}, r...)
 		}
 		out = append(out, r...)
+	}
+	return out
+}
+
+// pure: an expression without calls, receives or other effects (identifiers,
+// selectors, index expressions, literals, unary/binary operators, derefs).
+func pure(e ast.Expr) bool {
+	ok := true
+	ast.Inspect(e, func(n ast.Node) bool {
+		switch x := n.(type) {
+		case *ast.CallExpr, *ast.FuncLit, *ast.CompositeLit, *ast.TypeAssertExpr:
+			ok = false
+		case *ast.UnaryExpr:
+			if x.Op == token.ARROW || x.Op == token.AND {
+				ok = false
+			}
+		}
+		return ok
+	})
+	return ok
+}
+
+func (rw *rewriter) text(n ast.Node) string {
+	var b bytes.Buffer
+	format.Node(&b, rw.fset, n)
+	return b.String()
+}
+
+func (rw *rewriter) clone(e ast.Expr) ast.Expr {
+	c, err := parser.ParseExpr(rw.text(e))
+	if err != nil {
+		return nil
+	}
+	return c
+}
+
+// shared: an lvalue that other goroutines can reach - an index, field or
+// pointer target, or a package-level variable (not a plain local).
+func (rw *rewriter) shared(e ast.Expr) bool {
+	switch x := e.(type) {
+	case *ast.IndexExpr, *ast.SelectorExpr, *ast.StarExpr:
+		return true
+	case *ast.ParenExpr:
+		return rw.shared(x.X)
+	case *ast.Ident:
+		if !rw.pkgVars[x.Name] {
+			return false
+		}
+		if x.Obj == nil {
+			return true
+		}
+		vs, ok := x.Obj.Decl.(*ast.ValueSpec)
+		return ok && rw.pkgSpecs[vs]
+	}
+	return false
+}
+
+// R11: a read-modify-write of shared memory (x op= y, x++, x = ... x ...) is
+// not atomic on a real machine. It becomes { tmp := <new value>; YieldDense;
+// x = tmp }, so that with dense scheduling another goroutine can run between
+// the load and the store (lost updates of unsynchronised or differently locked
+// updates show). Only for operands without side effects; the types are those of
+// the original operands.
+func (rw *rewriter) splitRMW(s ast.Stmt) *ast.BlockStmt {
+	if rw.noDense > 0 {
+		return nil
+	}
+	var lhs ast.Expr
+	var val ast.Expr
+	switch x := s.(type) {
+	case *ast.IncDecStmt:
+		if !rw.shared(x.X) || !pure(x.X) {
+			return nil
+		}
+		op := token.ADD
+		if x.Tok == token.DEC {
+			op = token.SUB
+		}
+		lhs = x.X
+		val = &ast.BinaryExpr{X: rw.clone(x.X), Op: op, Y: &ast.BasicLit{Kind: token.INT, Value: "1"}}
+	case *ast.AssignStmt:
+		if len(x.Lhs) != 1 || len(x.Rhs) != 1 || !rw.shared(x.Lhs[0]) || !pure(x.Lhs[0]) || !pure(x.Rhs[0]) {
+			return nil
+		}
+		lhs = x.Lhs[0]
+		switch x.Tok {
+		case token.ASSIGN:
+			// only self-referential updates: the right side mentions the left side
+			if !strings.Contains(rw.text(x.Rhs[0]), rw.text(lhs)) {
+				return nil
+			}
+			val = rw.clone(x.Rhs[0])
+		case token.DEFINE:
+			return nil
+		default:
+			ops := map[token.Token]token.Token{token.ADD_ASSIGN: token.ADD, token.SUB_ASSIGN: token.SUB, token.MUL_ASSIGN: token.MUL, token.QUO_ASSIGN: token.QUO,
+				token.REM_ASSIGN: token.REM, token.AND_ASSIGN: token.AND, token.OR_ASSIGN: token.OR, token.XOR_ASSIGN: token.XOR, token.SHL_ASSIGN: token.SHL,
+				token.SHR_ASSIGN: token.SHR, token.AND_NOT_ASSIGN: token.AND_NOT}
+			op, ok := ops[x.Tok]
+			if !ok {
+				return nil
+			}
+			val = &ast.BinaryExpr{X: rw.clone(lhs), Op: op, Y: &ast.ParenExpr{X: rw.clone(x.Rhs[0])}}
+		}
+	default:
+		return nil
+	}
+	if val == nil {
+		return nil
+	}
+	for _, e := range []ast.Expr{val} {
+		if e == nil {
+			return nil
+		}
+	}
+	rw.tmpN++
+	tmp := ast.NewIdent(fmt.Sprintf("zsimTmp%d", rw.tmpN))
+	rw.st.SplitRMW++
+	rw.needRT = true
+	return &ast.BlockStmt{List: []ast.Stmt{
+		&ast.AssignStmt{Lhs: []ast.Expr{tmp}, Tok: token.DEFINE, Rhs: []ast.Expr{val}},
+		&ast.ExprStmt{X: rtCall("YieldDense", rw.point(s))},
+		&ast.AssignStmt{Lhs: []ast.Expr{rw.clone(lhs)}, Tok: token.ASSIGN, Rhs: []ast.Expr{ast.NewIdent(tmp.Name)}},
+	}}
+}
+
+// R12: accesses to maps held in struct fields are reported to the runtime, which
+// keeps, per map object, the set of locks that were held at every access by more
+// than one goroutine (lockset discipline). Go aborts the process when a map is
+// read and written at once, so a map that several goroutines use without a
+// common lock breaks any property about concurrent use - whether or not the
+// interleavings of a simulated run happen to show a wrong result.
+func (rw *rewriter) mapAccesses(s ast.Stmt) []ast.Stmt {
+	if len(mapFields) == 0 && len(unsafeObjs) == 0 {
+		return nil
+	}
+	var heads []ast.Node
+	switch x := s.(type) {
+	case *ast.AssignStmt, *ast.ExprStmt, *ast.IncDecStmt, *ast.ReturnStmt, *ast.SendStmt, *ast.DeferStmt, *ast.GoStmt:
+		heads = append(heads, x)
+	case *ast.IfStmt:
+		if x.Init != nil {
+			heads = append(heads, x.Init)
+		}
+		heads = append(heads, x.Cond)
+	case *ast.ForStmt:
+		if x.Init != nil {
+			heads = append(heads, x.Init)
+		}
+		if x.Cond != nil {
+			heads = append(heads, x.Cond)
+		}
+	case *ast.RangeStmt:
+		heads = append(heads, x.X)
+	case *ast.SwitchStmt:
+		if x.Init != nil {
+			heads = append(heads, x.Init)
+		}
+		if x.Tag != nil {
+			heads = append(heads, x.Tag)
+		}
+	default:
+		return nil
+	}
+	isMap := func(e ast.Expr) bool {
+		se, ok := e.(*ast.SelectorExpr)
+		return ok && mapFields[se.Sel.Name] && pure(se.X)
+	}
+	type acc struct {
+		e     ast.Expr
+		write bool
+	}
+	found := map[string]*acc{}
+	var order []string
+	note := func(e ast.Expr, write bool) {
+		k := rw.text(e)
+		if a, ok := found[k]; ok {
+			a.write = a.write || write
+			return
+		}
+		found[k] = &acc{e, write}
+		order = append(order, k)
+	}
+	objs := map[string]ast.Expr{}
+	var objOrder []string
+	noteObj := func(e ast.Expr) {
+		k := rw.text(e)
+		if _, ok := objs[k]; !ok {
+			objs[k] = e
+			objOrder = append(objOrder, k)
+		}
+	}
+	var walk func(n ast.Node)
+	walk = func(n ast.Node) {
+		ast.Inspect(n, func(m ast.Node) bool {
+			switch x := m.(type) {
+			case *ast.FuncLit:
+				return false
+			case *ast.AssignStmt:
+				for _, l := range x.Lhs {
+					// the variable / field itself is given a (new) object: not a use of an object
+					if se, ok := l.(*ast.SelectorExpr); ok && unsafeObjs[se.Sel.Name] {
+						continue
+					}
+					if id, ok := l.(*ast.Ident); ok && unsafeObjs[id.Name] {
+						continue
+					}
+					if ix, ok := l.(*ast.IndexExpr); ok && isMap(ix.X) {
+						note(ix.X, true)
+						walk(ix.Index)
+						continue
+					}
+					if isMap(l) {
+						continue // the field itself gets a new map: not an access to a map
+					}
+					walk(l)
+				}
+				for _, r := range x.Rhs {
+					walk(r)
+				}
+				return false
+			case *ast.IncDecStmt:
+				if ix, ok := x.X.(*ast.IndexExpr); ok && isMap(ix.X) {
+					note(ix.X, true)
+					walk(ix.Index)
+					return false
+				}
+			case *ast.CallExpr:
+				if id, ok := x.Fun.(*ast.Ident); ok && id.Name == "delete" && len(x.Args) == 2 && isMap(x.Args[0]) {
+					note(x.Args[0], true)
+					walk(x.Args[1])
+					return false
+				}
+			case *ast.SelectorExpr:
+				if isMap(x) {
+					note(x, false)
+					return false
+				}
+				if unsafeObjs[x.Sel.Name] && pure(x.X) {
+					noteObj(x)
+					return false
+				}
+			case *ast.Ident:
+				if unsafeObjs[x.Name] && rw.pkgVars[x.Name] {
+					if x.Obj == nil {
+						noteObj(x)
+					} else if vs, ok := x.Obj.Decl.(*ast.ValueSpec); ok && rw.pkgSpecs[vs] {
+						noteObj(x)
+					}
+				}
+			}
+			return true
+		})
+	}
+	for _, h := range heads {
+		walk(h)
+	}
+	var out []ast.Stmt
+	for _, k := range order {
+		a := found[k]
+		c := rw.clone(a.e)
+		if c == nil {
+			continue
+		}
+		w := "false"
+		if a.write {
+			w = "true"
+		}
+		rw.st.MapAccesses++
+		rw.needRT = true
+		out = append(out, &ast.ExprStmt{X: rtCall("MapAccess", rw.point(s), c, ast.NewIdent(w))})
+	}
+	for _, k := range objOrder {
+		c := rw.clone(objs[k])
+		if c == nil {
+			continue
+		}
+		rw.st.MapAccesses++
+		rw.needRT = true
+		out = append(out, &ast.ExprStmt{X: rtCall("ObjAccess", rw.point(s), c)})
 	}
 	return out
 }
